@@ -103,7 +103,10 @@ class LDMMaintenance:
             # Only the content (dataObject) of the stored record is replaced; application id,
             # timestamp, location and validity stay as they were added.
             record = self.data_containers.get(index=data_object_id)
-            updated_record = dict(record) if record is not None else {}
+            if record is None:
+                # Deleted or garbage collected since the caller checked: nothing to update
+                return
+            updated_record = dict(record)
             updated_record["dataObject"] = data_object
             self.data_containers.update(
                 updated_record,
